@@ -72,8 +72,38 @@ def both_index_search(ctx, key, fn, search_pats, variant, current_field):
     ctx.ob(key + 'd absence-only-after-search %s' % fn, 'K1-must-pass', fn, 'no success return without having searched', rets_none is None, '')
 
 
+def one_generation_searched_only_by_helpers(ctx, key):
+    """The index of a column exists in generations (current table + queued older ones) while a growth is being migrated; a key
+    may live in any of them. A keyed search of ONE table (IndexTable::get) is therefore made only by helpers that are handed the
+    table as a parameter by a function that walks all generations (HashColumn::get, search_all_indexes, the duplicate check and
+    purge of the growth). A function that holds the column's tables and searches `tables.index` itself misses every key that has
+    not been migrated yet."""
+    F = ctx.F
+    bad = []
+    helpers = set()
+    n = 0
+    for pth, b in sorted(F.bodies.items()):
+        if not pth.startswith('column::'):
+            continue
+        for bi, t in b.calls():
+            if bi in b.normal_blocks() and call_matches(t, ['index::IndexTable::get']) and t['a']:
+                n += 1
+                fl = lib.receiver_fields(b, t, 0)
+                pl = op_place(t['a'][0])
+                sl = backward_slice(b, [pl], through_calls=False) if pl is not None else None
+                from_param = bool(sl) and any(re.search(r'index::IndexTable', str(b.locals[q])) for q in sl.params)
+                if any(f in fl for f in ('.Tables.index', '.Reindex.queue', '.HashColumn.tables', '.HashColumn.reindex')) or not from_param:
+                    bad.append('%s searches one table it picked itself at %s' % (pth, b.loc(bi)))
+                else:
+                    helpers.add(lib.strip_closures(pth))
+    ctx.ob(key + 'g one-generation-searched-only-through-helpers', 'K4-confinement', 'column::HashColumn',
+           'IndexTable::get is called only on a table received as a parameter (per-generation helper); the functions that own the tables go through a walk over all generations',
+           not bad and n >= 3, '; '.join(bad) or 'sites %d' % n)
+
+
 def run(ctx):
     F = ctx.F
+    one_generation_searched_only_by_helpers(ctx, '1')
     both_index_search(ctx, '1', 'column::HashColumn::get', ['column::HashColumn::get_in_index'], 0, '.Tables.index')
     both_index_search(ctx, '1w', 'column::HashColumn::search_all_indexes', ['column::HashColumn::search_index'], 0, '.Tables.index')
     both_index_search(ctx, '1r', 'column::HashColumn::search_all_ref_count', ['column::HashColumn::search_ref_count'], 1, '.Tables.ref_count')
